@@ -85,15 +85,12 @@ fn monitors_inner(c: &Case, ctx: &mut Ctx, sim: &mut Sim) -> CaseResult {
 	for (k, op) in c.ops.iter().enumerate() {
 		let Some(tag) = apply_guarded(sim, &c.spec, op, ctx)? else { return Ok(()) };
 		tags.push(tag);
-		if std::env::var("C12_NOHARVEST").is_err() {
-			h.step(sim, is_chain_tag(tag))?;
-			if k % 3 == 0 {
-				h.check_manager(sim, (k / 3) % sim.w.n)?;
-			}
+		h.step(sim, is_chain_tag(tag))?;
+		if k % 3 == 0 {
+			h.check_manager(sim, (k / 3) % sim.w.n)?;
 		}
 	}
 	let st = &h.stats;
-	T_READ.with(|t| { let t = t.borrow(); if true { vcore::report(&format!("reads {} avg {}us avg {} bytes", t.0, t.1 / t.0.max(1), t.2 / t.0.max(1))); } });
 	ctx.sub_evaluations(st.images + st.live_snapshots + st.updates);
 	ctx.label_if(st.commute_strict > 0, "commute-strict");
 	ctx.label_if(st.commute_lenient_ok > 0, "commute-in-chain-op-ok");
@@ -903,7 +900,9 @@ fn justice_inner(c: &JusticeCase, ctx: &mut Ctx, sim: &mut Sim, phase_cell: &std
 		while (sim.chain.height() + 1 <= lt && lt < 500_000_000) && guard < 400 {
 			sim.mine_block(vec![]);
 			guard += 1;
-			step(&mut h, sim, true, phase)?;
+			if guard % 8 == 0 {
+				step(&mut h, sim, true, phase)?;
+			}
 		}
 		for _ in 0..c.extra_blocks {
 			sim.mine_block(vec![]);
@@ -940,14 +939,109 @@ fn justice_inner(c: &JusticeCase, ctx: &mut Ctx, sim: &mut Sim, phase_cell: &std
 	Ok(())
 }
 
+/// Serialized monitors handed over by other checks (hex files under replays/regress/C12): each must read,
+/// and re-encoding what was read must give the same bytes (up to hash-map entry order).
+fn regress_images() -> Vec<String> {
+	let mut v: Vec<String> = std::fs::read_dir(format!("{}/replays/regress/C12", VERIF_ROOT)).map(|d| d.filter_map(|e| e.ok()).map(|e| e.file_name().to_string_lossy().to_string()).filter(|n| n.ends_with(".hex")).collect()).unwrap_or_default();
+	v.sort();
+	v
+}
+
+fn regress_image_oracle(name: &String, ctx: &mut Ctx) -> CaseResult {
+	let hexs = std::fs::read_to_string(format!("{}/replays/regress/C12/{}", VERIF_ROOT, name)).map_err(|e| Failure::new("harness", format!("{}", e)))?;
+	let bytes = unhex(hexs.trim());
+	// images are written by node 0 of a functional_test_utils network (keys seed [0; 32])
+	let keys = lightning::util::test_utils::TestKeysInterface::new(&[0u8; 32], bitcoin::Network::Testnet);
+	let stem = name.trim_end_matches(".hex");
+	let (m, left) = read_mon(&bytes, &keys).map_err(|e| Failure::new("monitor-read", format!("{}: {:?}", name, e)).with_key(format!("monitor-read/regress/{}", stem)))?;
+	vensure!(left == 0, "monitor-read", "{}: {} bytes unread", name, left);
+	let b2 = lightning::util::ser::Writeable::encode(&m);
+	ctx.nontrivial();
+	if !same_bytes_modulo_order(&bytes, &b2) {
+		let p = bytes.iter().zip(b2.iter()).position(|(a, b)| a != b).unwrap_or(0);
+		return Err(Failure::new("monitor-reencode", format!("{}: write(read(b)) differs from b beyond ordering ({} vs {} bytes, first difference at byte {})", name, b2.len(), bytes.len(), p)).with_key(format!("monitor-reencode/regress/{}", stem)));
+	}
+	Ok(())
+}
+
 fn main() {
 	install_recording_signer();
 	let mut c = Check::new("C12", "exploration");
-	c.part_with(PartSpec { name: "monitors", rule: "wip", quick_cases: 400, thorough_cases: 20_000, max_shrink: 300 }, || strat(70), monitors_oracle);
-	c.part_with(PartSpec { name: "manager-twin", rule: "wip", quick_cases: 300, thorough_cases: 10_000, max_shrink: 300 }, twin_strat, twin_oracle);
-	c.part_with(PartSpec { name: "corruptions", rule: "wip", quick_cases: 150, thorough_cases: 5_000, max_shrink: 200 }, corrupt_strat, corrupt_oracle);
-	c.part_with(PartSpec { name: "graph-scorer", rule: "wip", quick_cases: 600, thorough_cases: 20_000, max_shrink: 1000 }, score_strat, score_oracle);
-	c.part_with(PartSpec { name: "justice-monitors", rule: "wip", quick_cases: 150, thorough_cases: 5_000, max_shrink: 200 }, justice_strat, justice_oracle);
-	c.part_with(PartSpec { name: "sweeper", rule: "wip", quick_cases: 300, thorough_cases: 10_000, max_shrink: 300 }, sweep_strat, sweep_oracle);
+	c.assume("objects are harvested from simulator histories (pair / three-node line; traffic, asynchronous persistence, disconnections, force closes, mined blocks, reorganisations above the funding depth, revoked-commitment publication); splice-specific fields never become populated");
+	c.assume("byte-for-byte stability write(read(b)) == b does NOT hold for monitors, managers, graphs and scorers on the unchanged tree because hash-map entries are written in per-instance random order (observed in >90% of monitor images); asserted instead: equality under the library's `==` (monitor, update, graph), equal length and byte histogram of the re-encoding, and canonical (key-sorted) byte equality for the scorer; ChannelMonitorUpdate and OutputSweeper state contain no hash maps and are compared byte-for-byte (sweeper: up to signature randomness / input order of the sweep transaction)");
+	c.assume("ChannelMonitor `==` includes `failed_back_htlc_ids`, documented as in-memory only (\"Not serialized\"): a live monitor of a forwarding node in a world with a closed channel that differs from its read-back image is accepted if the re-encoding has the same bytes up to order and the read-back image is a fixed point (label eq-exempt:failed-back-set)");
+	c.assume("update-commutes-with-round-trip is strict for updates applied outside block delivery; inside a block-delivering operation the monitor also changes through chain data between two persist calls, so a mismatch there is counted as unverifiable, not as a violation; pending (monitor) events drained by the manager between two persist calls are drained on both sides before a second comparison");
+	c.assume("manager twin: the reloaded node is read from encode() and the encodings of its live monitors taken at the same instant (no staleness; crash consistency is C10's subject); the never-reloaded twin gets the equivalent bounce (in-flight monitor updates completed, persistence synchronous, all connections dropped); both twins get rebroadcast_pending_claims() before every comparison (the background processor's timer); worlds are compared at quiescence after each subsequent operation");
+	c.assume("legitimate differences after a reload that are excluded, with reason: witness data / signatures (LDK signs with auxiliary randomness from the entropy source), hold_times (wall clock), BumpTransaction events and the transactions their handler broadcasts (not persisted by design, regenerated as needed; wallet UTXO choice depends on handling order), repeated events (documented at-least-once delivery), payment-resolution events re-derived at start-up from closed channels' monitors (kinds PaymentPathSuccessful, PaymentSent, PaymentClaimed, PaymentFailed, PaymentPathFailed, PaymentForwarded; labelled), re-broadcasts of transactions already broadcast before the reload; events emitted by the running node must all be emitted by the reloaded one");
+	c.assume("scorer: the stand-in for the current time (last update time, used only by probing_diversity_penalty_msat) is not persisted; penalties are compared without that penalty right after the round trip and with it after both scorers received the same further updates");
+	c.assume("single-byte mutations: value-level corruption is undetectable by design (no checksums), and what the library does with a well-formed but semantically corrupted object (debug assertions / overflow checks in read cross-checks, write, list_channels; an object whose own encoding no longer reads) is recorded as labels finding:mutation-*; failing oracles are: every strict prefix is rejected without panic, unknown odd TLV in the tail stream is skipped and the object is unchanged, unknown even TLV is rejected, no hang / over-allocation (watchdog). C12_STRICT_MUTATIONS=1 turns the labels into failures");
+	c.assume("a panic inside the library while a scenario runs is a C12 failure only if it is one of TestChainMonitor's serialization round-trip assertions; other debug assertions end the case with a foreign-failure label");
+	c.part_with(
+		PartSpec {
+			name: "monitors",
+			rule: "pair / line3 worlds with generated traffic, asynchronous persistence, disconnections, force closes, mined blocks and reorgs; after EVERY operation: every monitor image handed to Persist since the last step is read back (all bytes consumed; re-encoding has the same bytes up to order; every 4th image re-read again and `==`), every ChannelMonitorUpdate handed to Watch satisfies read(write(u)) == u and byte-identical re-encoding, read(write(M_k-1)) + update_monitor(U_k) == read(M_k as persisted), every changed live monitor m satisfies read(write(m)) == m, and every third operation one node's ChannelManager is read back from encode() + current monitors (fixed point of channels/payments; equal to the live manager when no peer is connected). Non-trivial: some harvested monitor state is non-quiescent (pending HTLC / update in flight / on-chain event awaiting confirmations / pending claim)",
+			quick_cases: 300,
+			thorough_cases: 8_000,
+			max_shrink: 300,
+		},
+		|| strat(70),
+		monitors_oracle,
+	);
+	c.part_with(
+		PartSpec {
+			name: "manager-twin",
+			rule: "the same generated prefix is executed in two worlds; in one a generated node is reloaded from its own ChannelManager::encode() and the encodings of its live monitors, in the other it gets the equivalent bounce; then the same generated operations are applied to both, both are driven to quiescence after each, and the public surface is compared: list_channels (every field), list_recent_payments, claimable balances, delivered HTLC / shutdown / error messages, events and broadcasts since the fork (rules in the assumptions). Non-trivial: at the moment of the write the node had pending HTLCs, a monitor update in flight or on-chain claims pending",
+			quick_cases: 250,
+			thorough_cases: 6_000,
+			max_shrink: 300,
+		},
+		twin_strat,
+		twin_oracle,
+	);
+	c.part_with(
+		PartSpec {
+			name: "corruptions",
+			rule: "one monitor (non-quiescent state preferred), one monitor update and one manager encoding harvested from a generated history: the tail TLV stream is located structurally (unique position whose BigSize length equals the remaining length and whose content is an ascending TLV stream of known types including the always-written ones); unknown odd records (types 43, 1001, 2^48-1; empty / generated value) appended => reads and equals the original; unknown even records (42, 1000, 2^32-2) => Err; strict prefixes (24 generated cut points + the last 8 bytes; all cut points for updates up to 600 bytes) => Err without panic; 40 (manager 20) generated single-byte mutations => classified (labels). Non-trivial: tail located and the monitor state is non-quiescent",
+			quick_cases: 100,
+			thorough_cases: 3_000,
+			max_shrink: 200,
+		},
+		corrupt_strat,
+		corrupt_oracle,
+	);
+	c.part_with(
+		PartSpec {
+			name: "graph-scorer",
+			rule: "node 0's NetworkGraph of a pair / line3 world receives the world's real channels (ids, funding keys, capacities, policies) plus generated gossip (full and partial channel announcements with/without capacity, channel updates, node announcements with all address kinds, permanent channel / node failures, stale pruning, rapid-sync timestamp): read(write(g)) == g, same rapid-sync timestamp, same bytes up to order. A ProbabilisticScorer over that graph receives generated payment_path_failed / successful / probe_* / time_passed sequences over connected paths: write -> read -> write is byte-identical after sorting entries by channel, and the re-read scorer gives the same estimated_channel_liquidity_range, historical bucket read-outs and channel_penalty_msat for a generated battery of (channel, direction, amount, in-flight) usages and generated fee parameters, right after the round trip and after the same further updates. Non-trivial: some historical bucket is non-empty",
+			quick_cases: 400,
+			thorough_cases: 20_000,
+			max_shrink: 1000,
+		},
+		score_strat,
+		score_oracle,
+	);
+	c.part_with(
+		PartSpec {
+			name: "sweeper",
+			rule: "an OutputSweeperSync follows one node of a world through a generated history with force closes, mined blocks and reorgs: it tracks the node's SpendableOutputs (generated delay / static-output exclusion), sees every block, its sweeps enter the world's mempool. After every operation the bytes it persisted are read back (tracked outputs `==` and best block equal to the live sweeper's), and a second sweeper re-read from the previous step's bytes is given the same inputs and must end with the same tracked outputs, tip, sweep result and broadcasts (up to input order / signatures of the sweep transaction). Non-trivial: a sweep transaction awaits its first confirmation or its confirmation threshold",
+			quick_cases: 120,
+			thorough_cases: 3_000,
+			max_shrink: 300,
+		},
+		sweep_strat,
+		sweep_oracle,
+	);
+	c.part_with(
+		PartSpec {
+			name: "justice-monitors",
+			rule: "punishment histories on a pair: HTLCs in both directions, the cheater keeps its commitment and second-stage transactions, the HTLCs are resolved off-chain (state revoked), a generated number of blocks later the revoked commitment is confirmed, the victim's justice transactions stay unmined and one of the cheater's second-stage transactions is confirmed first (package split), then generated closing operations; the monitor / update oracles of part `monitors` run after every step. Non-trivial: a justice transaction of the victim is in flight",
+			quick_cases: 40,
+			thorough_cases: 1_500,
+			max_shrink: 200,
+		},
+		justice_strat,
+		justice_oracle,
+	);
+	c.enumerate("regress-images", "serialized monitors handed over by other checks (replays/regress/C12/*.hex): read, re-encode, same bytes up to order", regress_images(), true, regress_image_oracle);
 	c.finish();
 }
